@@ -88,6 +88,13 @@ Qed.
 Lemma read_n_app' n a rest : n = length a -> read_n n (a ++ rest) = Ok a rest.
 Proof. intros ->. apply read_n_app. Qed.
 
+Lemma read_nN_app a rest : read_nN (blen a) (a ++ rest) = Ok a rest.
+Proof.
+  unfold read_nN, blen. rewrite app_length.
+  replace (N.of_nat (length a) <=? N.of_nat (length a + length rest)) with true by lia.
+  rewrite Nat2N.id. apply read_n_app.
+Qed.
+
 Lemma alloc_small n s : n <= alloc_cap -> alloc n s = Ok tt s.
 Proof. unfold alloc, alloc_ok. intros H. replace (n <=? alloc_cap) with true by lia. reflexivity. Qed.
 
@@ -192,7 +199,7 @@ Proof.
   intros H. unfold get_str, put_str, bind. rewrite <- app_assoc.
   rewrite strlen_put by assumption.
   rewrite alloc_small.
-  - apply read_n_app'. unfold blen. lia.
+  - apply read_nN_app.
   - unfold str_chunk, alloc_cap. lia.
 Qed.
 
@@ -269,6 +276,14 @@ Proof.
   rewrite firstn_app, skipn_app.
   replace (n - length s)%nat with 0%nat by lia. cbn [firstn skipn]. now rewrite app_nil_r.
 Qed.
+Lemma mono_read_nN n : mono (read_nN n).
+Proof.
+  intros s a r more H. unfold read_nN in *.
+  destruct (n <=? blen s) eqn:E; [|discriminate].
+  unfold blen in *. rewrite app_length.
+  replace (n <=? N.of_nat (length s + length more)) with true by lia.
+  now apply mono_read_n.
+Qed.
 Lemma mono_read_byte : mono read_byte.
 Proof. intros [|b s] a r more H; [discriminate|]. inversion H; reflexivity. Qed.
 Lemma mono_read_raw n : mono (read_raw n).
@@ -290,7 +305,7 @@ Proof. apply mono_bind; [apply mono_get_int|]. intros z. apply mono_if; [apply m
 Lemma mono_get_str : mono get_str.
 Proof.
   apply mono_bind; [apply mono_strlen|]. intros n.
-  apply mono_bind; [apply mono_alloc|]. intros _. apply mono_read_n.
+  apply mono_bind; [apply mono_alloc|]. intros _. apply mono_read_nN.
 Qed.
 Lemma mono_get_u8 : mono get_u8. Proof. apply mono_pmap, mono_read_raw. Qed.
 Lemma mono_get_u16 : mono get_u16. Proof. apply mono_pmap, mono_read_raw. Qed.
@@ -329,6 +344,8 @@ Lemma nofuel_alloc n : nofuel (alloc n).
 Proof. intros s. unfold alloc. destruct (alloc_ok n (length s)); discriminate. Qed.
 Lemma nofuel_read_n n : nofuel (read_n n).
 Proof. intros s. unfold read_n. destruct (Nat.leb n (length s)); discriminate. Qed.
+Lemma nofuel_read_nN n : nofuel (read_nN n).
+Proof. intros s. unfold read_nN. destruct (n <=? blen s); [apply nofuel_read_n|discriminate]. Qed.
 Lemma nofuel_read_raw n : nofuel (read_raw n).
 Proof. apply nofuel_bind; [apply nofuel_alloc|intros; apply nofuel_read_n]. Qed.
 Lemma nofuel_get_uv f : forall i acc, nofuel (get_uv f i acc).
@@ -347,7 +364,7 @@ Qed.
 Lemma nofuel_get_str : nofuel get_str.
 Proof.
   apply nofuel_bind; [apply nofuel_strlen|]. intros n.
-  apply nofuel_bind; [apply nofuel_alloc|]. intros _. apply nofuel_read_n.
+  apply nofuel_bind; [apply nofuel_alloc|]. intros _. apply nofuel_read_nN.
 Qed.
 Lemma nofuel_get_u8 : nofuel get_u8. Proof. apply nofuel_pmap, nofuel_read_raw. Qed.
 Lemma nofuel_get_u16 : nofuel get_u16. Proof. apply nofuel_pmap, nofuel_read_raw. Qed.
@@ -384,6 +401,11 @@ Proof.
   intros s a r H. unfold read_n in H. destruct (Nat.leb n (length s)); inversion H; subst.
   rewrite skipn_length. lia.
 Qed.
+Lemma shrinks_read_nN n : shrinks (read_nN n).
+Proof.
+  intros s a r H. unfold read_nN in H. destruct (n <=? blen s); [|discriminate].
+  now apply shrinks_read_n in H.
+Qed.
 Lemma shrinks_read_raw n : shrinks (read_raw n).
 Proof. apply shrinks_bind; [apply shrinks_alloc|intros; apply shrinks_read_n]. Qed.
 Lemma get_uv_consumes f : forall i acc s n r,
@@ -408,7 +430,7 @@ Qed.
 Lemma shrinks_get_str : shrinks get_str.
 Proof.
   apply shrinks_bind; [apply shrinks_strlen|]. intros n.
-  apply shrinks_bind; [apply shrinks_alloc|]. intros _. apply shrinks_read_n.
+  apply shrinks_bind; [apply shrinks_alloc|]. intros _. apply shrinks_read_nN.
 Qed.
 Lemma get_str_consumes s a r : get_str s = Ok a r -> (length r < length s)%nat.
 Proof.
@@ -417,8 +439,8 @@ Proof.
   apply uvarint_consumes in E. unfold ret at 1.
   destruct (to_i64 n <? 0)%Z; [discriminate|]. unfold ret at 1.
   intros H.
-  assert (Hs : shrinks (bind (alloc (N.min (Z.to_N (to_i64 n)) str_chunk)) (fun _ => read_n (N.to_nat (Z.to_N (to_i64 n))))))
-    by (apply shrinks_bind; [apply shrinks_alloc|intros; apply shrinks_read_n]).
+  assert (Hs : shrinks (bind (alloc (N.min (Z.to_N (to_i64 n)) str_chunk)) (fun _ => read_nN (Z.to_N (to_i64 n)))))
+    by (apply shrinks_bind; [apply shrinks_alloc|intros; apply shrinks_read_nN]).
   apply Hs in H. lia.
 Qed.
 Lemma shrinks_get_u8 : shrinks get_u8. Proof. apply shrinks_pmap, shrinks_read_raw. Qed.
